@@ -4,9 +4,9 @@ import json, os, shutil, glob, re
 import sys
 S='/tmp/seedwork'; D='/verif/seeded'
 ROUND=sys.argv[1] if len(sys.argv)>1 else '1'
-RES={'1':'results','2':'results2','3':'results3','4':'results4f'}[ROUND]
-OUTP={'1':'out-','2':'out2-','3':'out3-','4':'out4-'}[ROUND]
-PFX={'1':'','2':'r2-','3':'r3-','4':'r4-'}[ROUND]
+RES={'1':'results','2':'results2','3':'results3','4':'results4f','5':'results5f'}[ROUND]
+OUTP={'1':'out-','2':'out2-','3':'out3-','4':'out4-','5':'out5-'}[ROUND]
+PFX={'1':'','2':'r2-','3':'r3-','4':'r4-','5':'r5-'}[ROUND]
 EXTRA=json.load(open(f'{S}/extra{ROUND}.json')) if os.path.exists(f'{S}/extra{ROUND}.json') else {}
 rows=[]
 for rf in sorted(glob.glob(f'{S}/{RES}/C*-*.json')):
@@ -20,7 +20,7 @@ for rf in sorted(glob.glob(f'{S}/{RES}/C*-*.json')):
     shutil.copy(f'{out}/demo{n}.rs',f'{dst}/demo.rs')
     try: meta=json.load(open(f'{out}/meta{n}.json'))
     except Exception as e: meta={'property':pid,'summary':'(meta file of the sub-agent did not parse)'}
-    logdir='results4-baseline' if ROUND=='4' else RES
+    logdir={'4':'results4-baseline','5':'results5'}.get(ROUND,RES)
     log=open(f'{S}/{logdir}/{sid}.log',errors='replace').read() if os.path.exists(f'{S}/{logdir}/{sid}.log') else ''
     conf=[l for l in log.splitlines() if l.startswith(('suite with patch','demo with patch','demo without patch','SEED-'))]
     prev=json.load(open(f'{dst}/meta.json')) if os.path.exists(f'{dst}/meta.json') else {}
@@ -33,7 +33,7 @@ for rf in sorted(glob.glob(f'{S}/{RES}/C*-*.json')):
       'my_confirmation':{'how':'tools/verify_seed.sh in the scratch worktree: full suite with the patch, demo with the patch, demo without the patch','output':conf},
       'checks_run':{'how':'quick tier of the listed checks against a scratch copy with the patch applied (tools/seed_eval.sh); spot-checked on /repo itself with tools/run_seed.sh','caught_by':caught,'not_caught_by':missed},
       'extra':EXTRA.get(sid,prev.get('extra',{})),
-      **({'baseline_before_strengthening':json.load(open(f'{S}/results4-baseline/{sid}.json')).get('caught_by',[])} if ROUND=='4' else {}),
+      **({'baseline_before_strengthening':json.load(open(f'{S}/'+{'4':'results4-baseline','5':'results5'}[ROUND]+f'/{sid}.json')).get('caught_by',[])} if ROUND in ('4','5') else {}),
     }
     json.dump(meta_out,open(f'{dst}/meta.json','w'),indent=1)
     rows.append((PFX+sid,(meta.get('summary') or '')[:110],' '.join(caught),' '.join(missed)))
